@@ -400,8 +400,35 @@ fn elem_case(seed: u64, i: u64, quick: bool, l: &mut Local) {
     let _ = hash_f64s(&[]);
 }
 
+/// the rank map itself: index(p) = min(floor(p*n), n-1) for p in [0,1]
+fn judge_index(n: usize, r: &mut Rng, l: &mut Local) {
+    if n == 0 {
+        return;
+    }
+    let mut ps: Vec<f64> = vec![0.0, 1.0, 0.5, 1.0 - 2f64.powi(-53), 5e-324];
+    for _ in 0..4 {
+        ps.push(r.f64());
+        ps.push(r.below(n as u64 + 1) as f64 / n as f64);
+    }
+    for p in ps {
+        l.eval();
+        l.count("Stats::index judged");
+        let want = floor_set(p * n as f64, 1e-9 * (1.0 + n as f64)).into_iter().map(|x| x.min(n - 1)).collect::<Vec<_>>();
+        match call(|| quantile::Stats::new(n).index(p)) {
+            Out::Ok(i) if want.contains(&i) && i < n => {}
+            other => l.violation(
+                format!("Stats::index|{}", if p == 1.0 { "p=1" } else { "p<1" }),
+                "Stats::index(p) is not min(floor(p*n), n-1) (or is out of range)".to_string(),
+                json!({"what": "index", "n": n, "p": p}),
+                json!({"n": n, "p": p, "observed": other.describe(), "admissible": want}),
+            ),
+        }
+    }
+}
+
 fn judge_n(n: usize, levels: &[f64], seed: u64, dense: bool, l: &mut Local) {
     let mut r = Rng::from(&[seed, 0xc03, n as u64]);
+    judge_index(n, &mut r, l);
     let qs = q_grid(n, &mut r, dense);
     for q in qs {
         for &level in levels {
@@ -434,6 +461,7 @@ pub fn run(run: &Arc<Run>) {
                 judge_ranks(case["n"].as_u64().unwrap() as usize, q, kind, case["level"].as_f64().unwrap(), &|| case.clone(), &mut l);
             }
             "elems" => elem_case(seed, case["i"].as_u64().unwrap(), quick, &mut l),
+            "index" => judge_index(case["n"].as_u64().unwrap() as usize, &mut Rng::from(&[seed, 0xc03, case["n"].as_u64().unwrap()]), &mut l),
             _ => {}
         }
         run.absorb(l);
@@ -448,6 +476,7 @@ pub fn run(run: &Arc<Run>) {
     }
     run.require(&[
         "ranks judged",
+        "Stats::index judged",
         "bracketing judged",
         "inadmissible rejected with documented error",
         "ambiguous_rank_cases",
